@@ -121,8 +121,20 @@ THEOREMS = [P + n for n in [
     "normG_escape_spelling", "norm_escape_spelling_string", "norm_escape_spelling_string_rel",
     "normG_query_permutation", "norm_query_permutation_string", "norm_query_permutation_string_rel",
     "normG_amp_semicolon_partial", "norm_amp_semicolon_string_partial", "norm_amp_semicolon_string_rel_partial",
-]]
-EXTRA_IMPORTS = ["UralModel.Props.C04Whole"]
+]] + [P + n for n in [
+    # both values of `lowercase`, and the tuple on the grammar (Lemmas/C04Lower.lean, Props/C04Lower.lean): what C06 instantiates
+    "norm_fragment_nonrouting_lc", "norm_tracking_item_any_position_lc", "norm_tracking_item_raw_lc", "norm_tracking_item_first_lc",
+    "norm_tracking_item_alone_lc", "norm_query_permutation_lc", "norm_amp_semicolon_lc_partial", "norm_trailing_slash_lc", "norm_index_lc",
+    "norm_escape_spelling_lc", "norm_escape_fold_lc", "normalizeUrlSplit_partsG", "normG_eq_partsG",
+    # what the rules are, amp- and hex case on strings, compositions (Props/C04Spec.lean)
+    "routing_fragment_iff", "nonrouting_fragment_iff", "readme_rule_is_not_the_code", "tracking_prefix_family", "family_accepts",
+    "isReDigit_of_ascii",
+    "partsG_amp_dash", "norm_amp_dash_string", "norm_amp_dash_string_rel", "norm_hex_case_string",
+    "norm_compose_string_rel", "wf_tail", "wf_authority", "wf_trailing_slash",
+    "norm_tracking_then_slash_string_rel", "norm_scheme_userinfo_label_string_rel",
+]] + ["Ural.Normalize." + n for n in ["outQuery_eq_lc", "normParts_congr_query_lc", "pathSteps_trailing_slash_lc", "pathSteps_index_lc",
+                                     "shouldStripFragment_lower"]]
+EXTRA_IMPORTS = ["UralModel.Props.C04Whole", "UralModel.Props.C04Lower", "UralModel.Props.C04Spec"]
 TABLE_OBLIGATIONS = [P + n for n in [
     "tracking_core_stripped",
     "tracking_core_amp",
@@ -130,6 +142,8 @@ TABLE_OBLIGATIONS = [P + n for n in [
     "plain_keys_kept",
     "keeps_empty",
     "perDomain_first_labels",
+    "tracking_families_in_pattern",
+    "ascii_digits_in_class",
 ]]
 
 OPTSETS = [{}, {"quoted": True}, {"platform_aware": True}, {"quoted": True, "platform_aware": True}]
@@ -617,7 +631,16 @@ CORPUS_PAIRS = [
     ("http://a.com/x?redirect=/z \x00", "http://a.com/x?redirect=/z", "FX-C04-dcfec1d"),
 ]
 CORPUS_SINGLES = ["", " ", "http://a.com:99999/", "a.com?url=/z", "http://[::1", "http://a.com:x/", "a:b:c", "http://a.com/?next=http://[::1",
-                  "http://a.com/?url=http://b.com:99999/", "http://x&u=/p", "\x00", "http://"]
+                  "http://a.com/?url=http://b.com:99999/", "http://x&u=/p", "\x00", "http://",
+                  # `\d` of IRRELEVANT_SUBDOMAIN_RE is every Unicode decimal digit (the model's class is regenerated from
+                  # the compiled regex): such labels in the BASE (both spellings go through the model; the oracle does
+                  # not ask for them to be irrelevant - the property names www2)
+                  "http://www\u0663.a.com/", "http://WWW\uff13.a.com/p", "http://www\u0663\u0663.a.com/", "http://x.www\u0967.a.com/",
+                  "http://www\u00b2.a.com/", "http://amp-www\u0663.a.com/", "http://www\U0001d7d7.a.co.uk/p?b=1&a=2"]
+CORPUS_PAIRS += [
+    ("http://www\u0663.a.com/p", "HTTPS://u@www\u0663.a.com/p/", "family on a base with a unicode-digit label"),
+    ("www\uff13.example.co.uk/x?utm_source=1", "http://www\uff13.example.co.uk/x", "family on a base with a unicode-digit label"),
+]
 
 
 def cases(rng, tier):
@@ -790,7 +813,7 @@ TRUSTED = [
     "attempt_to_decode_idna (CPython idna codec) is the abstract `puny` (PunyLaws / PunyCase hypotheses, instances proved for the identity decoder; the real codec's answers are shipped per label and compared)",
     "the platform_aware branch (facebook / youtube rewriting): the old lines (`norm_parts`, `normalize_whole`) keep the abstract `platform : Str -> Str` and the harness ships the rewritten URL's components / the table {string handed to the branch: result}; the line `normalize_whole_pa` (both spellings of every platform_aware=True case) ships NOTHING about the branch: it is the concrete Platform.platformConcrete of Model/Platform.lean (normalize_url.py:268-276 over the C19 models of ural/facebook.py / ural/youtube.py), compared with the real normalize_url(u, platform_aware=True); cases outside the component models' stated domains are counted (pa:outside-model:*) and withheld",
     "infer_redirection is the Lean model of C15 (Model/Redirect.lean), compared on every case (`norm_clean` line)",
-    "hand-written scanners for the look-around regexes (IRRELEVANT_SUBDOMAIN(_AMP)_RE, AMP_SUFFIXES_RE, MISTAKES_RE) are tied to the regenerated pattern strings and probe tables by the obligations of Props/C05.lean and to the code by differential execution",
+    "hand-written scanners for the look-around regexes (IRRELEVANT_SUBDOMAIN(_AMP)_RE, AMP_SUFFIXES_RE, MISTAKES_RE) are tied to the regenerated pattern strings and probe tables by the obligations of Props/C05.lean and to the code by differential execution; their `\\d` is the class the compiled regex matches (every Unicode decimal digit: `www\u0663.a.com` loses its label), regenerated as Gen.Normalize.reDigitRanges from the compiled pattern's flags (probes and corpus bases with such labels)",
     "Lean kernel, the driver's JSON glue (Driver/Norm.lean), harness/norm_common.py prepare() (replay of the steps before parsing with ural's own pieces, itself compared with the model)",
 ]
 ASSUMPTIONS = [
@@ -800,23 +823,41 @@ ASSUMPTIONS = [
     "model alphabet: no non-ASCII character that str.lower() changes (DESIGN 4); such URLs go through the oracle only",
 ]
 UNPROVED = (
-    "All theorems are about the model over all inputs; none is `decide` over samples. norm_amp_dash is full on the reading "
+    "All theorems are about the model over all inputs; none is `decide` over samples. WHICH THEOREM CARRIES WHICH CLAUSE: the "
+    "component-level statements norm_scheme_irrelevant, norm_userinfo_irrelevant, norm_default_port, norm_clean_congr, norm_hex_case "
+    "are congruences on the Parsed record / on the cleaned string (lemmas); the clauses 'scheme or absence of scheme', 'userinfo', "
+    "'explicit default port', 'surrounding whitespace or control characters', 'spelling of percent-escapes (hex case)' are carried by "
+    "the STRING theorems norm_scheme_string(_rel), norm_userinfo_string(_rel), norm_default_port_string(_rel), "
+    "norm_surrounding_ws_string / norm_clean_string, norm_hex_case_string, whose hypotheses are about the two strings. "
+    "norm_amp_dash is full on the reading "
     "(hypotheses: the host behind amp- is decoded — every label is its own decode_punycode_hostname, D20 is in the corpus — "
-    "and does not start with amp- once its irrelevant labels are gone: the prefix is cut once, D19, ampDash_cut_once); "
+    "and does not start with amp- once its irrelevant labels are gone: the prefix is cut once, D19, ampDash_cut_once); on STRINGS: "
+    "norm_amp_dash_string(_rel) on the grammar class, with the two further decidable hypotheses hcanon (the idna step does not treat "
+    "the prefixed first label differently: first label not punycode, D20) and hdf (per-domain query filter chosen alike). "
     "norm_surrounding_ws / norm_surrounding_ws_redirect / norm_clean_irrelevant are full (URLs that parse; an unparseable "
     "argument is returned as it is, C05) now that infer_redirection reads the cleaned url. PARTIAL: "
     "norm_amp_semicolon_partial (hypothesis: the item after '&amp;' does not itself "
     "start with 'amp;' — fullAmpSemicolon_fails; outside the family). norm_query_permutation needs 'no item starts with amp;' when the "
-    "repair is on (the repair treats the first item differently). STRING LEVEL (Props/C04Whole.lean): "
+    "repair is on (the repair treats the first item differently). WHAT THE RULES ARE (Props/C04Spec.lean): routing_fragment_iff / "
+    "nonrouting_fragment_iff state the code's fragment rule (routing = starts with '/' or '!' and is more than the bare marker '/', '!', "
+    "'!/') — NOT the README's gloss 'contains a /' (readme_rule_is_not_the_code: '#frag/with' is stripped, '#!route' kept; the oracle "
+    "applies the fragment transformation only to fragments that are non-routing under both readings); tracking_prefix_family: every "
+    "key utm_… / mtm_… / at_… (amp_… under normalize_amp), any case, is stripped — for all keys, from the regenerated pattern through "
+    "the regex semantics (obligation tracking_families_in_pattern); the remaining keys of the pattern are pinned by the sample "
+    "obligations tracking_core_* only. STRING LEVEL (Props/C04Whole.lean): "
     "normalizeUrlString(T u) = normalizeUrlString(u) is proved for scheme swap / removal, userinfo, explicit 80 / 443, host case, "
     "leading irrelevant label, trailing slash, index name, non-routing fragment, tracking item at any position / alone, permutation, "
     "'&amp;' (partial as above), escape spelling of path / query / fragment, for every pair u, T u whose cleaned, resolved forms are strings of the grammar class NormBridge.UrlG.wf "
     "(letters{1,64}:// | // | nothing-and-not-protocol-like; userinfo without /?#[]; host without /?#@:[] or an IP literal [h] accepted by the model's bracket check; port text without "
     "/?#@[]; absolute or empty path without ?#; query without #) with a port text that is a port; whitespace / control characters "
-    "for every string that parses. Witnesses outside the class (C04Whole, by evaluation): 'http://a/b@a.com/' (userinfo with '/'), "
+    "for every string that parses. COMPOSITIONS: the string theorems are string_of_grammar_rel applied to an equality of normG on the "
+    "pieces; such equalities chain (norm_compose_string_rel: the intermediate spelling needs no string of its own), the class of the "
+    "pieces is closed under the rewritings behind a written protocol (wf_tail, wf_authority, wf_trailing_slash); two compositions are "
+    "spelled out (norm_tracking_then_slash_string_rel, norm_scheme_userinfo_label_string_rel); arbitrary compositions are the oracle's "
+    "(2-3 steps on every base). Witnesses outside the class (C04Whole, by evaluation): 'http://a/b@a.com/' (userinfo with '/'), "
     "'x://a.com' (bare string that starts like a protocol), 'http://u@a.com:x/' (port text that is no port: returned unchanged). "
-    "Not in the class, hence oracle + correspondence only: brackets in the userinfo, IP literals with an IPv4 tail, relative paths, the amp- prefix "
-    "on strings (component level only), platform_aware. Not proved, explored on every run by oracle + "
+    "Not in the class, hence oracle + correspondence only: brackets in the userinfo, IP literals with an IPv4 tail, relative paths, "
+    "platform_aware. Not proved, explored on every run by oracle + "
     "correspondence of both spellings: (i) that the hand model of urlsplit + accessors IS CPython's (compared, C01/C02 parse_url "
     "streams and normalize_whole here); (ii) invariance of infer_redirection itself under the family (KF-C04-1 = D29: hints are searched in "
     "the raw string) — the theorems cover the function after the pre-step (norm_redirect_prestep is exact); (iii) "
@@ -824,7 +865,9 @@ UNPROVED = (
     "hypothesis NotPlatform on both spellings — a property of the host text, notPlatform_of_host; white space / control characters around: every string, norm_clean_string_pa); "
     "on platform urls the family is NOT respected, by design (KF-C04-4 = D53) — now theorems about the concrete branch: d53_escaped_path_letter, d53_index_file_name, "
     "d53_label_in_front_of_host, fullPlatformInvariance_false; (iv) non-absolute paths (no authority) for slash / index; "
-    "(v) options: each theorem names the options it needs (strip_trailing_slash for the query and path theorems, lowercase off)."
+    "(v) options: each theorem names the options it needs (strip_trailing_slash for the query and path theorems); `lowercase` is off in "
+    "Props/C04.lean / C04Whole.lean (the documented API) and ARBITRARY in Props/C04Lower.lean (norm_*_lc, partsG_*: the statements "
+    "fingerprint_url's call needs, C06)."
 )
 LEVEL_NOTE = "proof about the model + differential execution of both spellings + oracle; two known findings (design: D29, D53)"
 # ---------------------------------------------------------------------------------------
